@@ -63,6 +63,18 @@ fn norm_ax<N: FromLabel + NumericOps>(args: &[Arg]) -> Option<String> {
 }
 
 pub fn dispatch(op: &str, ty: &str, args: &[Arg]) -> Option<String> {
+    if op == "solve_t" {
+        // solve on integer element types: a singular matrix is refused (seeded change C15p: the tolerance taken in the
+        // element type is 0 for integers)
+        fn st<N: FromLabel + NumericOps>(args: &[Arg]) -> Option<String> {
+            let (s1, e1, s2, e2) = match args { [Arg::A(s1, e1), Arg::A(s2, e2)] => (s1, e1, s2, e2), _ => return None };
+            let a = Array::<N>::new(e1.iter().map(|&x| N::conv(false, x)).collect(), s1.clone()).ok()?;
+            let b = Array::<N>::new(e2.iter().map(|&x| N::conv(false, x)).collect(), s2.clone()).ok()?;
+            Some(w2(res_arr(&a.solve(&b)), res_arr(&okr(&a).solve(&b))))
+        }
+        let r = match ty { "i8" => st::<i8>(args), "i16" => st::<i16>(args), "i32" => st::<i32>(args), "i64" => st::<i64>(args), "f32" => st::<f32>(args), _ => st::<f64>(args) };
+        return Some(r.unwrap_or_else(|| "bad:input".to_string()));
+    }
     if op == "norm_ax" {
         let r = match ty { "i8" => norm_ax::<i8>(args), "i16" => norm_ax::<i16>(args), "i32" => norm_ax::<i32>(args), "i64" => norm_ax::<i64>(args),
                            "f32" => norm_ax::<f32>(args), _ => norm_ax::<f64>(args) };
